@@ -1,6 +1,7 @@
 """C04: gate sequences are linear isometries; documented inverse pairs cancel."""
 from ..common import *
 from ..gatecases import *
+import math
 
 TRUSTED = [
     "Coq 8.16.1 kernel; vm_compute only to RUN the model and the metamorphic relations on the cases",
@@ -62,6 +63,26 @@ def gen_cases(ctx):
             cases.append({"op": "opseq", "n": n, "gates": gates, "a": rand_vec(rng, n, style), "b": rand_vec(rng, n, "generic"),
                           "x": [ctx.randf(-2, 2), ctx.randf(-2, 2)], "y": [ctx.randf(-2, 2), ctx.randf(-2, 2)],
                           "thr": rng.choice([10, 1]), "rt": rt})
+    # whatever Unitary2::new ACCEPTS must act as an isometry: candidates with unit-norm but non-orthogonal rows, orthogonal but
+    # non-unit rows, and slightly perturbed unitaries (rejected candidates are skipped: ctor_err)
+    import cmath
+    h = 1 / math.sqrt(2)
+    cands = [[h, 0, h, 0, 0, h, 0, h], [1, 0, 0, 0, h, 0, 0, h], [0.6, 0, 0.8, 0, 0.8, 0, 0.6, 0], [1, 0, 0, 0, 0, 0, 2, 0], [0.5, 0, 0, 0, 0, 0, 1, 0]]
+    for _ in range(40):
+        t1, t2 = rng.uniform(0, 3.1), rng.uniform(0, 3.1)
+        p = [cmath.exp(1j * rng.uniform(-3.1, 3.1)) for _ in range(4)]
+        r1 = (p[0] * math.cos(t1), p[1] * math.sin(t1)); r2 = (p[2] * math.cos(t2), p[3] * math.sin(t2))      # unit rows, generally not orthogonal
+        cands.append([r1[0].real, r1[0].imag, r1[1].real, r1[1].imag, r2[0].real, r2[0].imag, r2[1].real, r2[1].imag])
+        # a true unitary with complex entries, and the same with its second row conjugated entry-wise (orthogonal only under a wrong formula)
+        a, b = p[0] * math.cos(t1), p[1] * math.sin(t1)
+        e = p[2]
+        c, d = -e * b.conjugate(), e * a.conjugate()
+        cands.append([a.real, a.imag, b.real, b.imag, c.real, c.imag, d.conjugate().real, d.conjugate().imag])
+    for m in cands:
+        for n in (1, 2):
+            g = {"kind": "U2", "params": [float2bits(float(x)) for x in m], "ts": [rng.randrange(n)], "cs": []}
+            cases.append({"op": "opseq", "n": n, "gates": [g], "a": rand_vec(rng, n, "normalised"), "b": rand_vec(rng, n, "generic"),
+                          "x": [ctx.randf(), ctx.randf()], "y": [ctx.randf(), ctx.randf()], "thr": rng.choice([10, 1]), "rt": False})
     # each inverse pair on its own, with controls, on 3 qubits (the documented table)
     for kind in INV:
         for _ in range(3):
